@@ -143,6 +143,11 @@ def make_universes(order: int):
     US = Universe("c01-struct", specs((0, 1)))
     # odd declaration orders also enumerate the value alphabet backwards: a content_id must not depend on what was built before
     UV = Universe("c01-values", specs(tuple(reversed(VALUES)) if order % 2 else tuple(VALUES)))
+    for c in UV.classes.values():  # wide tuples of the 'wide' family are built through this universe
+        for f in c.fields:
+            if f.name == "v":
+                f.alphabet = tuple(f.alphabet) + tuple(x for x in range(2, 13) if x not in f.alphabet)
+    UV._memo.clear()
     US.one = Universe("c01-struct-1", specs((0,)))
     return g, US, UV
 
@@ -220,6 +225,18 @@ def cases(cfg, g, US, UV):
     for n in range(3, cfg["nv"] + 1):
         for d in UV.trees(n):
             yield "value", d
+    # wide tuples (>= 10 children, so that two-digit indices occur): a 12-element tuple and every transposition of two
+    # of its elements, plus the 11- and 13-element neighbours
+    leaves = [("AV", (("v", i),)) for i in range(12)]
+    yield "wide", ("AT", (("items", tuple(leaves)),))
+    for i in range(12):
+        for j in range(i + 1, 12):
+            sw = list(leaves)
+            sw[i], sw[j] = sw[j], sw[i]
+            yield "wide", ("AT", (("items", tuple(sw)),))
+    yield "wide", ("AT", (("items", tuple(leaves[:11])),))
+    yield "wide", ("AT", (("items", tuple(leaves + [("AV", (("v", 12),))])),))
+    yield "wide", ("AT", (("items", tuple(leaves[:10] + [leaves[10], leaves[10]])),))
     strs2 = attack_strings(g, min(2, cfg["ntok"]))
     kids = [None, ("AV", (("v", 0),)), ("AF", ())]
     for a in strs2:  # all pairs of strings of <= 2 tokens
